@@ -39,7 +39,7 @@ def c02_jobs(tier):
         jobs += [J("hsms", "ZZ_C02_tree", depth=2, width=2, menu=6, maxn=1, timeout_s=7200, **{"force.tk": 6, "force.tw": 0}),
                  J("hsms", "ZZ_C02_tree", depth=3, width=2, menu=1, maxn=1, timeout_s=7200),
                  J("hsms", "ZZ_C02_tree", depth=1, width=2, menu=13, maxn=2, timeout_s=7200)]
-    jobs += [J("hsms", "ZZ_C02_incomplete", which=w) for w in range(4)]
+    jobs += [J("hsms", "ZZ_C02_incomplete", which=w) for w in range(5)]
     jobs += [J("ast", "ZZ_C13_header", typ=t) for t in range(14)]  # format byte + shortest length for every size
     W = [1, 1, 1, 1, 8, 1, 2, 4, 8, 4, 8, 1, 2, 4]
     for k in LEAF_KINDS:
@@ -109,6 +109,12 @@ def c03_jobs(tier):
                     jobs.append(J("hsms", "ZZ_C03_structured", kind=kind, n=n, nlb=nlb, corr=corr))
                     if corr in (1, 3) and n == 1:
                         jobs.append(J("hsms", "ZZ_C03_structured", kind=kind, n=n, nlb=nlb, corr=corr, spare=16 + nlb % 2))
+    # longer ASCII / binary / numeric items with every payload byte arbitrary (checks that work on 8 or 16 bytes at a time)
+    for kind, sizes in ((3, (7, 8, 9, 16, 17, 33)), (1, (8, 17)), (11, (9,)), (6, (5, 9)), (9, (3, 5))):
+        for n in (sizes if tier == "quick" else sizes + (24, 32, 40)):
+            if kind == 9 and n > 5:
+                continue
+            jobs.append(J("hsms", "ZZ_C03_structured", kind=kind, n=n, nlb=1 + n % 2, corr=0))
     for kind in (3, 1):
         for nlb, present in ((2, 0), (2, 256), (2, 257), (3, 0), (3, 256), (3, 300)) + (() if tier == "quick" else ((3, 1000), (2, 1000))):
             if tier == "quick" and kind == 1 and present not in (256,):
@@ -284,6 +290,10 @@ def c15_jobs(tier):
                 for ka, kb in ks:
                     jobs.append(J("sml", "ZZ_C15_literal", typ=typ, form=form, c=c, ka=ka, kb=kb, sp=0, nines=0, **T))
             jobs.append(J("sml", "ZZ_C15_literal", typ=typ, form=form, c=1, ka=2, kb=2, sp=1, nines=0, **T))
+            jobs.append(J("sml", "ZZ_C15_literal", typ=typ, form=form, c=2, ka=1, kb=1, sp=2, nines=0, **T))  # tab / CR / LF inside the brackets
+            if typ != 3:
+                for c, vp in ((1, 0), (2, 0), (3, 1)):  # an item that holds a variable has a count like any other
+                    jobs.append(J("sml", "ZZ_C15_literal", typ=typ, form=form, c=c, ka=1, kb=1, sp=0, nines=0, varpos=vp, **T))
             if typ in (0, 3, 5):
                 jobs.append(J("sml", "ZZ_C15_literal", typ=typ, form=form, c=1, ka=1, kb=1, sp=0, nines=1, **T))
                 for z in (1, 2, 3):  # bounds zero-padded to 19, 20, 21 digits
@@ -355,6 +365,9 @@ def c19_jobs(tier):
     for t1, t2 in ((10, 10), (10, 1), (8, 10), (2, 10), (11, 11), (7, 11), (0, 11), (1, 11), (11, 7), (11, 0), (6, 11)):
         for sep in (0, 2, 5):
             jobs.append(J("sml", "ZZ_C19_concat", t1=t1, t2=t2, sep=sep, three=0, **T))
+    # many messages in one text, deep nesting, a line longer than 131,072 columns with warnings on it and behind it
+    for t1, t2, sep in ((14, 0, 1), (0, 14, 2), (14, 15, 2), (15, 14, 0), (15, 1, 2), (1, 15, 5), (16, 8, 2), (16, 1, 2), (8, 16, 2), (16, 12, 1)):
+        jobs.append(J("sml", "ZZ_C19_concat", t1=t1, t2=t2, sep=sep, three=0, fuel=2_000_000_000, call_depth=3000, **T))
     jobs.append(J("sml", "ZZ_C19_concat", t1=2, t2=2, t3=10, sep=1, sep2=2, three=1, **T))
     jobs.append(J("sml", "ZZ_C19_concat", t1=7, t2=0, t3=11, sep=2, sep2=0, three=1, **T))
     # a part that begins with k arbitrary bytes (whatever is accepted at the start of a text is accepted behind another text)
@@ -449,8 +462,8 @@ def c12_jobs(tier):
                 jobs.append(J("ast", "ZZ_C12_binary_str", k=k, pre=pre, pz=pz))
     jobs += [J("ast", "ZZ_C12_wrongtype", which=i) for i in range(9)]
     jobs.append(J("ast", "ZZ_C12_boolean"))
-    for k in ([0, 1, 2, 3] if tier == "quick" else [0, 1, 2, 3, 4, 5]):
-        jobs.append(J("ast", "ZZ_C12_ascii", k=k))
+    for k in ([0, 1, 2, 3, 7, 8, 9, 16, 17, 33] if tier == "quick" else [0, 1, 2, 3, 4, 5, 7, 8, 9, 15, 16, 17, 24, 31, 32, 33, 64, 65]):
+        jobs.append(J("ast", "ZZ_C12_ascii", k=k))  # word-at-a-time scans: every offset of 8-, 16- and 32-byte groups
     for k in ([0, 1, 2, 3, 4] if tier == "quick" else [0, 1, 2, 3, 4, 5, 6]):
         for kind in range(7):
             if tier == "quick" and k == 4 and kind not in (0, 6):
